@@ -122,10 +122,19 @@ Obs(M, v) ==
         condHiF |-> <<Norm1(M) * Norm1(ad), d>>,
         condHi |-> <<Len(M) * Norm1(M) * Norm1(ad), d>>]
 
+\* ExactInFloat rule for boundary cases.  ExtendVecSym documents "k > w' A^-1 w ... if this condition does
+\* not hold ExtendVecSym will return false", SymRankOne "returns whether the updated matrix is positive
+\* definite": an exactly singular target must be refused; only rounding can excuse the other answer.  When
+\* the object represents the identity (reached by Factorize(I) / SetFromU(I), factor exactly I) every
+\* quantity the test is made of (a triangular solve with I, a sum of squares of integers <= 1, the
+\* comparison with an integer) is exact in binary floating point, so the boundary answer is firm.
+ExactBoundary(o) == valid /\ A = Ident(N) /\ o.op \in {"ExtendVecSym", "SymRankOne"}
+
 (********************************* actions **********************************)
 Do(o) ==
   LET T == Target(A, o)
-      c == IF o.op \in {"Clone", "Scale", "SetFromU"} THEN "ok" ELSE Classify(T)
+      c == IF o.op \in {"Clone", "Scale", "SetFromU"} THEN "ok"
+           ELSE IF Classify(T) = "either" /\ ExactBoundary(o) THEN "fail" ELSE Classify(T)
   IN /\ Bounded(T)
      /\ Assert(IsSymmetric(T), "target not symmetric")
      /\ Assert(Lemma(A, o, T), "update lemma")
